@@ -237,12 +237,19 @@ class Gen:
             items.insert(r.randint(0, len(items)), ("version", ver))
             doc = dict(items)
         ftypes = {}
+        # in about half of the cases some of the keys the history works on are NOT fields of the class
+        undeclared_p = 0.45 if r.random() < 0.5 else 0.0
         for k in TOP_KEYS:
             q = r.random()
-            if q < 0.8:
+            if r.random() < undeclared_p:
+                ftypes[k] = "undeclared"
+            elif q < 0.8:
                 ftypes[k] = "any"
             else:
                 ftypes[k] = {"a": "int", "b": "str", "c": "sub", "d": "subs"}.get(k, "any")
+        keep = r.choice([None, None, True, True, True, False, False])      # keep_undefined: default / True / False
+        addl = r.choice([None, None, True, False, False])                  # _additional_properties: unset / True / False
+        sub_undeclared = r.random() < 0.3                                  # nested class does not declare key "a"
         has_attr = not (n == 0 and r.random() < 0.5)
         kw = {}
         for k in TOP_KEYS:
@@ -251,7 +258,8 @@ class Gen:
         if r.random() < 0.3:
             kw["version"] = r.choice([1, n + 1, n + 5, 0])
         return {"ms": ms, "doc": enc(doc), "splits": list(range(0, n + 1)) + ([n + 2] if r.random() < 0.1 else []),
-                "ftypes": ftypes, "hasAttr": has_attr, "kw": enc(kw), "trusted": r.random() < 0.2}
+                "ftypes": ftypes, "hasAttr": has_attr, "kw": enc(kw), "trusted": r.random() < 0.2,
+                "keep": keep, "addl": addl, "subUndeclared": sub_undeclared}
 
 
 def gen_cases(rng, tier, n):
@@ -355,24 +363,26 @@ def sorted_res(res):
 def make_classes(case, ms_objs):
     from typedpy import Anything, Array, Integer, PositiveInt, String, Structure, Versioned
 
-    class Sub(Structure):
-        x = Anything
-        y = Anything
-        z = Anything
-        a = Anything
-        _required = []
+    sub_ns = {"x": Anything, "y": Anything, "z": Anything, "_required": []}
+    if not case.get("subUndeclared"):
+        sub_ns["a"] = Anything          # otherwise key "a" of sub-documents is an undeclared (additional) property
+    Sub = type("Sub", (Structure,), sub_ns)
 
     def field(t):
         return {"any": Anything, "int": Integer, "str": String, "sub": Sub, "subs": Array[Sub]}[t]
 
-    ns = {k: field(t) for k, t in case["ftypes"].items()}
+    ns = {k: field(t) for k, t in case["ftypes"].items() if t != "undeclared"}
     ns["_required"] = []
+    if case.get("addl") is not None:
+        ns["_additional_properties"] = case["addl"]
     vns = dict(ns)
     if case["hasAttr"]:
         vns["_versions_mapping"] = ms_objs
     V = type("V", (Versioned,), vns)
     pns = dict(ns)
-    pns["version"] = Anything     # V forces the version in __init__; the twin must not validate it
+    pns["version"] = Integer      # V forces the version in __init__ (so the twin must not demand positivity), but the
+    # field must be of the same "simplicity" class as PositiveInt: direct_trusted_mapping takes the trusted path only
+    # for classes whose fields are all simple, and V and its twin have to take the same path
     P = type("V", (Structure,), pns)     # same name: error messages carry the class name
     return V, P
 
@@ -392,13 +402,19 @@ def dump_instance(x):
     return repr(x)
 
 
-def deser_outcome(cls, doc, trusted):
+def declared_fields(case):
+    return [k for k, t in case["ftypes"].items() if t != "undeclared"] + ["version"]
+
+
+def deser_outcome(cls, doc, case):
     from typedpy import Deserializer
+    flags = {}
+    if case["trusted"]:
+        flags["direct_trusted_mapping"] = True
+    if case.get("keep") is not None:
+        flags["keep_undefined"] = case["keep"]
     try:
-        if trusted:
-            inst = Deserializer(cls).deserialize(doc, direct_trusted_mapping=True)
-        else:
-            inst = Deserializer(cls).deserialize(doc)
+        inst = Deserializer(cls).deserialize(doc, **flags)
     except Exception as e:   # noqa: BLE001
         return None, {"err": err_name(e), "msg": str(e)[:200]}
     d = dump_instance(inst)
@@ -406,6 +422,9 @@ def deser_outcome(cls, doc, trusted):
     if isinstance(d, dict) and "$" in d:
         out["version"] = d["$"].get("version")
         out["okNoVersion"] = canon({"$": {k: v for k, v in d["$"].items() if k != "version"}})
+        fields = declared_fields(case)
+        # attributes of the instance that are not fields of the class (kept undeclared keys)
+        out["extras"] = canon({k: v for k, v in d["$"].items() if k not in fields})
     return inst, out
 
 
@@ -471,12 +490,12 @@ def run_impl(case):
     except Exception as e:   # noqa: BLE001
         res["class_error"] = f"{err_name(e)}: {e}"
         return res
-    _, res["deser_old"] = deser_outcome(V, doc, case["trusted"])
+    _, res["deser_old"] = deser_outcome(V, doc, case)
     check_snap("deserialize(document)")
     if "ok" in res["full"]:
         conv = copy.deepcopy(full_obj)
-        _, res["deser_new"] = deser_outcome(V, conv, case["trusted"])
-        _, res["deser_plain"] = deser_outcome(P, copy.deepcopy(full_obj), case["trusted"])
+        _, res["deser_new"] = deser_outcome(V, conv, case)
+        _, res["deser_plain"] = deser_outcome(P, copy.deepcopy(full_obj), case)
         check_snap("deserialize(converted)")
     kw = dec(case["kw"])
     try:
@@ -492,7 +511,8 @@ def run_impl(case):
 
 def line(case, impl):
     l = {"suite": "convert", "doc": case["doc"], "ms": case["ms"], "splits": case["splits"],
-         "hasAttr": case["hasAttr"], "kw": case["kw"]}
+         "hasAttr": case["hasAttr"], "kw": case["kw"], "fields": declared_fields(case), "keep": case.get("keep"),
+         "addl": True if case.get("addl") is None else case["addl"]}
     if "full" in impl:
         l["impl"] = {"full": sorted_res(impl["full"]), "again": sorted_res(impl["again"]),
                      "stages": [{"s1": sorted_res(s["s1"]), "s2": sorted_res(s["s2"])} for s in impl["stages"]]}
@@ -540,6 +560,14 @@ def tags(case, impl, model):
         t.append("history=" + ("well-formed" if model["out"].get("wf") else "writes-version"))
     if "deser_old" in impl:
         t.append("deserialize=" + ("ok" if "ok" in impl["deser_old"] else impl["deser_old"]["err"]))
+        if impl["deser_old"].get("extras", "{}") != "{}":
+            t.append("deserialize=keeps-undeclared-keys")
+    t.append(f"keep_undefined={case.get('keep')}")
+    t.append(f"additional_properties={case.get('addl')}")
+    und = [k for k, ft in case["ftypes"].items() if ft == "undeclared"]
+    t.append("undeclared_keys=" + ("0" if not und else "1+"))
+    if und and any(k.split(SUFFIX)[0] in und for m in case["ms"] for k, _ in m):
+        t.append("history-touches-undeclared-key")
     return t
 
 
@@ -582,13 +610,22 @@ def correspondence(case, impl, model):
         if "err" in m_in:
             if "err" not in d_old or d_old["err"] != m_in["err"]:
                 return f"deserialize: model prologue raises {m_in['err']}, real {json.dumps(d_old)[:300]}"
-        elif "deser_plain" in impl:
+        elif "deser_plain" in impl and type(dec(case["doc"]).get("version")) is int:
             # model input_dict == real converted document (checked above), so the non-Versioned twin on the
             # converted document is `rest(input_dict)`
             # (`Versioned.__init__` then forces `version`, so that attribute is compared separately)
             if not same_deser(d_old, impl["deser_plain"], ignore_version=True):
                 return (f"deserialize: Versioned class on the document {json.dumps(d_old)[:300]} differs from the "
                         f"plain twin class on the converted document {json.dumps(impl['deser_plain'])[:300]}")
+    # undeclared keys kept on the instance: the model takes them from the converted document (non-trusted path)
+    m_ex = model.get("deserExtras")
+    if d_old is not None and "ok" in d_old and "extras" in d_old and m_ex is not None and not case["trusted"]:
+        if "ok" not in m_ex:
+            return f"deserialize: model raises {m_ex.get('err')} but the real code returned an instance"
+        if canon(dec(m_ex["ok"])) != d_old["extras"]:
+            return (f"deserialize(keep_undefined={case.get('keep')}, additional properties {case.get('addl')}): the "
+                    f"instance keeps undeclared keys {d_old['extras'][:300]}, the model (undeclared keys of the "
+                    f"converted document) says {canon(dec(m_ex['ok']))[:300]}")
     init = impl.get("init")
     if init is not None and "ok" in init and init["ok"] != model["initVersion"]:
         return f"constructor: real version {init['ok']} model {model['initVersion']}"
